@@ -43,7 +43,7 @@ def literal_variants():
     for l in ([1], [True], [1.0], [1, "a"], ["a", 1], [[1]], [[True]], [], [None], [0, False]):
         out.append(("Element(enum=%r)" % (l,), lambda l=l: Element(enum=copy.deepcopy(l))))
     for kw, vals in {"minimum": [1, 1.0, True, 2], "maxLength": [1, True, 2], "uniqueItems": [True, False, 1], "additionalItems": [True, False, 1], "additionalProperties": [True, False, 1],
-                     "required": [[], ["a"], ["a", "b"], ["b", "a"]], "minItems": [0, False, 1], "multipleOf": [1, 1.0, 2], "pattern": ["a", "^a"], "format": ["uuid", "date-time"]}.items():
+                     "required": [[], ["a"], ["a", "b"], ["b", "a"]], "minItems": [0, False, 1], "multipleOf": [1, 1.0, 2, 2.0], "pattern": ["a", "^a"], "format": ["uuid", "date-time"]}.items():
         for v in vals:
             out.append(("Element(%s=%r)" % (kw, v), lambda kw=kw, v=v: Element(**{kw: copy.deepcopy(v)})))
     for cls in (Element, Integer, Number):
